@@ -153,15 +153,16 @@ class C22(HangJudge, Check):
             "coefficient, no repeated monomial); kind conv: expression trees over the 5 symbols (+ rationals/a, sqrt and 2^x "
             "generators): from_basic with automatic and explicit generator sets (incl. unused generators) has the value of "
             "the recipe; as_symbolic(from_basic(e)) eq expand(e). Enumerated: all ordered pairs of a small pool for both "
-            "classes. Non-trivial: two operands whose variable sets are neither equal nor disjoint (both non-zero); distinct "
-            "by operands.")
+            "classes. A program that gives no answer in 25 s is split; an instruction that twice gives no answer alone is "
+            "reported as non-terminating. Non-trivial: two operands whose variable sets are neither equal nor disjoint (both "
+            "non-zero); distinct by operands.")
     assumptions = ["Python Fraction dictionary arithmetic is the reference; dumped Expression coefficients are evaluated in Python",
                    "from_dict precondition: distinct variables, exponent vectors of the variables' length (the ops decline otherwise)",
                    "eval is given a value for every variable of the polynomial (the header marks missing values as TODO)",
                    "pow_mpoly(p, 0) does not terminate (known defect, excluded by construction, skip known:pow_exponent_zero_hang)",
                    "MExprPoly may store coefficients that vanish only after expansion; compared by value",
                    "documented exceptions of from_basic decline a case; an exception of an arithmetic op or query is a violation"]
-    tiers = {"quick": {"examples": 1400}, "thorough": {"examples": 40000}}
+    tiers = {"quick": {"examples": 1400}, "thorough": {"examples": 100000}}
     timeout = 40.0
     case_timeout = 240
 
